@@ -171,10 +171,9 @@ def expected(t, s):
     if t["cmds"][s["k"]][1]:
         return None
     code = {"exit0": 128 + n, "exit3": 3, "dies": 128 + n}[s["reaction"]]
-    if t["name"] == "command" and s["reaction"] != "exit0" and keys[s["k"]] == "[C0]":
-        # `--command` is not among the commands the statement quantifies over; its failure is reported
-        # as a generic error (exit 1): only "non-zero, nothing further" is required
-        code = "nonzero"
+    # (the command of `--command` is a command just started like any other: its failure status or 128+signal is just's
+    # exit status; an earlier version of this check accepted the generic exit status 1 here - that was the check
+    # giving way to a defect, repaired in /repo since)
     return {"exit": code, "spawned": keys[:s["k"] + 1]}
 
 
@@ -237,8 +236,6 @@ def run(report):
                 continue
         # correspondence with the Lean transition system (record = true is what the property needs)
         mexit = m["exited"]
-        if t["name"] == "command" and s["reaction"] not in ("exit0", None) and s["k"] == 1:
-            mexit = r["exit"]
         if len(r["spawned"]) != min(m["spawned"], len(t["cmds"])) or r["exit"] != mexit:
             report.failure("c13-model", "Lean transition system and implementation disagree (property oracle holds)",
                            dict(replay, correspondence="C13 schedules vs Just.Signals.run (record=true)",
